@@ -627,18 +627,18 @@ func TestProp(t *testing.T) {
 
 	evid.Rapid(r, t, "systematic-parity",
 		"blocks: fragment count 1..300 (3/8 a power of two or its neighbour, edges 1,2,3,299,300, small- and large-biased ranges), fragment size 1..64, redundancy 0..100, uniform-looking bytes expanded from a drawn seed. Oracle: exactly M+redundancy fragments of the fragment size, input untouched, output i == data row i for i < M, parity y == XOR of the rows selected by the TS004 model line y+1. Non-trivial: redundancy >= 1 and M >= 2.",
-		2000, 80000, genBlock, checkBlock)
+		8000, 80000, genBlock, checkBlock)
 
 	evid.Rapid(r, t, "linearity",
 		"two blocks a, b of the same shape (as in systematic-parity): Encode(a xor b) == Encode(a) xor Encode(b) fragment by fragment. Non-trivial: redundancy >= 1, M >= 2 and a != b.",
-		1000, 40000,
+		4000, 40000,
 		func(t *rapid.T) linCase {
 			return linCase{block: genBlock(t), SeedB: rapid.Uint64().Draw(t, "dataSeedB")}
 		}, checkLinear)
 
 	evid.Rapid(r, t, "decode-erasures",
 		"a block as in systematic-parity plus an erasure pattern: e lost data fragments (0..min(M,redundancy+2), mostly near what the parity can repair), sometimes lost parity fragments, arrival order ascending / descending / parity first / rotated. Oracle: Gaussian elimination over GF(2) on (TS004 model selection vector, encoder fragment) pairs; a pair that is dependent on earlier ones must be consistent with them; if the received vectors have rank M the recovered block must equal the original (lower rank is counted by class, not failed). Non-trivial: redundancy >= 1, at least one erased data fragment, full rank.",
-		2000, 80000, genDec, checkDecode)
+		8000, 80000, genDec, checkDecode)
 
 	lens := r.N(40, 200)
 	reds := []int{3, 1, 0}
